@@ -64,26 +64,8 @@ func (node *Node) processUnconfirmedTx(ctx context.Context, tx handlers.TxData) 
 				continue // Only send for txs that previously matched filters.
 			}
 
-			txState, err := handlerstorage.FetchTxState(ctx, node.store, conflict)
-			if err != nil {
-				continue
-			}
-
-			txState.State.UnSafe = true
-			txState.State.Safe = false
-
-			if err := handlerstorage.SaveTxState(ctx, node.store, txState); err != nil {
-				return errors.Wrap(err, "save tx state")
-			}
-
-			update := &client.TxUpdate{
-				TxID:  *txState.Tx.TxHash(),
-				State: txState.State,
-			}
-
-			// Notify of tx conflict
-			for _, handler := range node.handlers {
-				handler.HandleTxUpdate(ctx, update)
+			if err := node.markTxUnsafe(ctx, conflict); err != nil {
+				return err
 			}
 		}
 	}
@@ -162,6 +144,36 @@ func (node *Node) processUnconfirmedTx(ctx context.Context, tx handlers.TxData) 
 	// Notify of new tx
 	for _, handler := range node.handlers {
 		handler.HandleTx(ctx, txState)
+	}
+
+	return nil
+}
+
+// markTxUnsafe updates the stored state of a tx to unsafe and notifies the handlers.
+func (node *Node) markTxUnsafe(ctx context.Context, txid bitcoin.Hash32) error {
+	node.txStateLock.Lock()
+	defer node.txStateLock.Unlock()
+
+	txState, err := handlerstorage.FetchTxState(ctx, node.store, txid)
+	if err != nil {
+		return nil
+	}
+
+	txState.State.UnSafe = true
+	txState.State.Safe = false
+
+	if err := handlerstorage.SaveTxState(ctx, node.store, txState); err != nil {
+		return errors.Wrap(err, "save tx state")
+	}
+
+	update := &client.TxUpdate{
+		TxID:  *txState.Tx.TxHash(),
+		State: txState.State,
+	}
+
+	// Notify of tx conflict
+	for _, handler := range node.handlers {
+		handler.HandleTxUpdate(ctx, update)
 	}
 
 	return nil
